@@ -367,6 +367,7 @@ func runC09(replay string) int {
 				Grid      *c09GridCase `json:"grid"`
 				History   *c09HistCase `json:"history"`
 				Admission *c09AdmCase  `json:"admission"`
+				Gov       *c09GovCase  `json:"gov"`
 			}
 			if err := json.Unmarshal(raw, &c); err != nil {
 				fmt.Fprintln(os.Stderr, err)
@@ -380,6 +381,10 @@ func runC09(replay string) int {
 				return c09CheckGrid(*c.Grid, got, p)
 			case c.History != nil:
 				fs, oc := c09RunHist(*c.History)
+				fmt.Println("outcome:", oc)
+				return fs
+			case c.Gov != nil:
+				fs, oc := c09RunGov(*c.Gov)
 				fmt.Println("outcome:", oc)
 				return fs
 			case c.Admission != nil:
@@ -469,6 +474,20 @@ func runC09(replay string) int {
 				run.Fail(f)
 			}
 		}
+		for i, c := range c09GovCases() {
+			if i%n != shard {
+				continue
+			}
+			fs, oc := c09RunGov(c)
+			run.Count("transitions", 4)
+			run.Count("traces_validated_against_impl", 1)
+			run.Count("gov_param_change_histories", 1)
+			run.Outcome("gov:" + oc)
+			run.Distinct(fmt.Sprintf("gov:%s:%s:%v:%s", c.NewMinGas, c.NewBaseFee, c.WithTx, oc))
+			for _, f := range fs {
+				run.Fail(f)
+			}
+		}
 		for i, c := range adms {
 			if i%n != shard {
 				continue
@@ -487,8 +506,8 @@ func runC09(replay string) int {
 		}
 	})
 	run.Coverage["states"] = int(run.Counter("transitions")) + int(run.Counter("grid_points"))
-	run.Coverage["evaluations"] = len(grid) + len(hists) + len(adms)
+	run.Coverage["evaluations"] = len(grid) + len(hists) + len(adms) + len(c09GovCases())
 	run.Coverage["exhaustive"] = true
-	run.Coverage["rule"] = "grid: full product of 11 base fees (0..2^255) × 10 MaxGas values (−1,0,1,2,3,16,21000,100k,40M,2^63−1) × gas used at {0,1,target−1,target,target+1,limit−1,limit,limit+1,…} × 6 min gas prices, each evaluated by the real CalculateBaseFee on a context with that block gas meter; histories: all 1- and 2-block (thorough: 3-block) sequences of 8 fill levels in worlds MaxGas∈{−1,0,1,100k,40M} × 2 min gas prices through FinalizeBlock; admission: 3 min gas prices × heights {1,2} × price offsets {−2,−1,0,+1} relative to {floor, base fee} × {legacy, dynamic with tip 0/1/cap}. distinct_nontrivial = distinct (input, direction) grid points plus distinct history outcomes"
+	run.Coverage["rule"] = "grid: full product of 11 base fees (0..2^255) × 10 MaxGas values (−1,0,1,2,3,16,21000,100k,40M,2^63−1) × gas used at {0,1,target−1,target,target+1,limit−1,limit,limit+1,…} × 6 min gas prices, each evaluated by the real CalculateBaseFee on a context with that block gas meter; histories: all 1- and 2-block (thorough: 3-block) sequences of 8 fill levels in worlds MaxGas∈{−1,0,1,100k,40M} × 2 min gas prices through FinalizeBlock; admission: 3 min gas prices × heights {1,2} × price offsets {−2,−1,0,+1} relative to {floor, base fee} × {legacy, dynamic with tip 0/1/cap}; governance: 18 parameter-change histories (proposal with x/feemarket MsgUpdateParams: 3 new min gas prices × 3 new base fees × execution block empty / with a tx), the base fee is compared with floor(min gas price) at the start of every later block. distinct_nontrivial = distinct (input, direction) grid points plus distinct history outcomes"
 	return run.Finish()
 }
